@@ -252,3 +252,18 @@ package keepclient
 //@ func KeepClient.PutHR property C11 safety -bounds,-makeslice
 //@   requires kc.Retries >= 0
 //@   calls KeepClient.putReplicas#1: requires dataBytes <= 67108864 && $0 == hash && $2 == dataBytes
+
+// loadKeepServers: a service is offered for writing only if the list shows it
+// as not read-only, and every service offered for writing is also a local
+// root; a writable non-disk service makes the replicas-per-service count
+// unknown (0), otherwise it is 1.
+//@ func KeepClient.setServiceRoots trusted
+//@   modifies KeepClient.localRoots KeepClient.writableLocalRoots KeepClient.gatewayRoots
+//@ spec macro listedWritable(list, n, u) bool = exists k int :: 0 <= k && k < n && list.Items[k].Uuid == u && !list.Items[k].ReadOnly
+//@ func KeepClient.loadKeepServers property C11 safety -bounds
+//@   calls KeepClient.setServiceRoots#1: requires $0 == localRoots && $1 == writableLocalRoots
+//@   calls KeepClient.setServiceRoots#1: requires forall u string :: has(writableLocalRoots, u) ==> listedWritable(list, len(list.Items), u) && has(localRoots, u)
+//@   calls KeepClient.setServiceRoots#1: requires kc.replicasPerService == 0 || kc.replicasPerService == 1
+//@   loop 1: invariant list == old(list) && kc == old(kc) && writableLocalRoots != nil && localRoots != nil && listed != nil && gatewayRoots != nil && writableLocalRoots != localRoots && writableLocalRoots != gatewayRoots && localRoots != gatewayRoots
+//@   loop 1: invariant forall u string :: has(writableLocalRoots, u) ==> listedWritable(list, $i, u) && has(localRoots, u)
+//@   loop 1: invariant kc.replicasPerService == 0 || kc.replicasPerService == 1
